@@ -86,16 +86,17 @@ pub struct ArmOpts {
     pub perturb: bool,      // width jitter / lossy cache / weakened dominance allowed
     pub max_threads: usize,
     pub allow_nodup_depth_free: bool,
+    pub force_nodup: bool,
 }
 
 pub fn generate(arm: &str, seed: u64, o: ArmOpts) -> Scenario {
     let mut rng = Rng::new(seed);
     let mut trng = rng.fork(1);
-    let table = Table::generate(&mut trng, GenOpts { depth_free: o.depth_free, long_arcs: o.long_arcs, max_n: 8, max_s: 6, reconverge: o.reconverge, dom_friendly: o.force_dom == Some(true) || rng.chance(1, 3) });
+    let table = Table::generate(&mut trng, GenOpts { depth_free: o.depth_free, long_arcs: o.long_arcs, max_n: 8, max_s: 6, reconverge: o.reconverge, dom_friendly: o.force_dom == Some(true) || rng.chance(1, 3), few_dead_arcs: rng.chance(1, 3) });
     let dd = if o.force_pooled { Dd::Pooled } else { *rng.pick(&[Dd::Lel, Dd::Fc, Dd::Pooled]) };
     let cache = o.force_cache.unwrap_or_else(|| rng.chance(1, 2));
     let depth_free = !table.depth_in_state;
-    let nodup = if depth_free && !o.allow_nodup_depth_free { false } else { rng.chance(1, 2) };
+    let nodup = if depth_free && !o.allow_nodup_depth_free { false } else { rng.chance(1, 2) || o.force_nodup };
     let wmax = *rng.pick(&[1, 1, 1, 2, 2, 2, 3, 3, 4]);
     let width = if o.perturb && rng.chance(1, 3) { WidthPlan::Jitter { seed: rng.next(), max: wmax.max(2) } } else { WidthPlan::Fixed(wmax) };
     let want_dom = o.force_dom.unwrap_or_else(|| rng.chance(1, 3));
@@ -230,7 +231,7 @@ where D: DecisionDiagram<State = TState> + Default, C: Cache<State = TState> + D
         c("cache_clear_layers", &rc.cache_clear_layers), c("cache_clears", &rc.cache_clears), c("cache_get_saw_foreign_write", &rc.cache_get_saw_foreign_write),
         c("must_explore_false", &rc.must_explore_false), c("dom_checks", &rc.dom_checks), c("dom_dominated", &rc.dom_dominated), c("dom_weakened", &rc.dom_weakened),
         c("mon_layers_checked", &monitor::LAYERS_CHECKED), c("mon_layers_at_width", &monitor::LAYERS_AT_WIDTH), c("mon_relax_calls", &monitor::RELAX_CALLS),
-        c("mon_merge_calls", &monitor::MERGE_CALLS), c("mon_tc_calls", &monitor::TC_CALLS), c("mon_domain_calls", &monitor::DOMAIN_CALLS), c("mon_nextvar_calls", &monitor::NEXTVAR_CALLS),
+        c("mon_merge_calls", &monitor::MERGE_CALLS), c("mon_tc_calls", &monitor::TC_CALLS), c("mon_domain_calls", &monitor::DOMAIN_CALLS), c("mon_nextvar_calls", &monitor::NEXTVAR_CALLS), c("mon_recycled_merges", &monitor::RECYCLED_MERGES),
     ];
     out
 }
